@@ -1,0 +1,43 @@
+/// Powers of ten that are exactly representable in an `f64`.
+const EXACT_POW10: [f64; 23] = [
+    1e0, 1e1, 1e2, 1e3, 1e4, 1e5, 1e6, 1e7, 1e8, 1e9, 1e10, 1e11, 1e12, 1e13, 1e14, 1e15, 1e16,
+    1e17, 1e18, 1e19, 1e20, 1e21, 1e22,
+];
+
+/// Most significant digits an `f64` mantissa can hold.
+const MAX_EXACT_DIGITS: u32 = 16;
+
+/// Convert the text of an unsigned literal (`12`, `12.5`, `12.`, `0.5`) as
+/// collected by the tokenizers into an `f64`.
+///
+/// Nearly every literal in a formula is short. When its digits fit in the
+/// mantissa and the scale is an exact power of ten, the value is a single
+/// (correctly rounded) division away, so there is no need to go through the
+/// general purpose parser. Anything else, including malformed text such as
+/// `1.2.3`, is left to `str::parse`.
+pub fn parse_float_literal(literal: &str) -> Option<f64> {
+    let mut mantissa: u64 = 0;
+    let mut digits: u32 = 0;
+    let mut scale: usize = 0;
+    let mut fractional = false;
+    for c in literal.chars() {
+        match c.to_digit(10) {
+            Some(digit) => {
+                // leading zeros are not significant
+                if mantissa != 0 || digit != 0 {
+                    digits += 1;
+                }
+                if fractional {
+                    scale += 1;
+                }
+                if digits > MAX_EXACT_DIGITS || scale >= EXACT_POW10.len() {
+                    return literal.parse::<f64>().ok();
+                }
+                mantissa = mantissa * 10 + digit as u64;
+            }
+            None if c == '.' && !fractional => fractional = true,
+            None => return literal.parse::<f64>().ok(),
+        }
+    }
+    Some(mantissa as f64 / EXACT_POW10[scale])
+}
